@@ -856,3 +856,67 @@ impl MKdf {
         Item::array(v)
     }
 }
+
+impl MKey {
+    /// Reference encoding (RFC 8152 section 7 COSE_Key map; typed labels 1..5 then extras).
+    pub fn to_item(&self) -> Item {
+        let mut m = vec![(Item::uint(1), self.kty.to_item())];
+        if !self.key_id.is_empty() {
+            m.push((Item::uint(2), Item::bytes(&self.key_id)));
+        }
+        if let Some(a) = &self.alg {
+            m.push((Item::uint(3), a.to_item()));
+        }
+        if !self.key_ops.is_empty() {
+            m.push((Item::uint(4), Item::array(self.key_ops.iter().map(|o| o.to_item()).collect())));
+        }
+        if !self.base_iv.is_empty() {
+            m.push((Item::uint(5), Item::bytes(&self.base_iv)));
+        }
+        for (l, v) in &self.params {
+            m.push((l.to_item(), v.to_item()));
+        }
+        Item::map(m)
+    }
+}
+
+impl MTimestamp {
+    pub fn to_item(&self) -> Item {
+        match self {
+            MTimestamp::Whole(i) => Item::int(*i as i128),
+            MTimestamp::Frac(b) => Item::new(Kind::Float(8, *b)),
+        }
+    }
+}
+
+impl MClaims {
+    /// Reference encoding (RFC 8392 claims map; claims 1..7 then the rest).
+    pub fn to_item(&self) -> Item {
+        let mut m = Vec::new();
+        if let Some(x) = &self.issuer {
+            m.push((Item::uint(1), Item::text(x)));
+        }
+        if let Some(x) = &self.subject {
+            m.push((Item::uint(2), Item::text(x)));
+        }
+        if let Some(x) = &self.audience {
+            m.push((Item::uint(3), Item::text(x)));
+        }
+        if let Some(x) = &self.expiration_time {
+            m.push((Item::uint(4), x.to_item()));
+        }
+        if let Some(x) = &self.not_before {
+            m.push((Item::uint(5), x.to_item()));
+        }
+        if let Some(x) = &self.issued_at {
+            m.push((Item::uint(6), x.to_item()));
+        }
+        if let Some(x) = &self.cwt_id {
+            m.push((Item::uint(7), Item::bytes(x)));
+        }
+        for (n, v) in &self.rest {
+            m.push((n.to_item(), v.to_item()));
+        }
+        Item::map(m)
+    }
+}
